@@ -8,12 +8,12 @@ Proved (positional parameters, the part that is pure):
   the reference is replaced by `argValue args N` and the adjacent text is preserved; `C15_index`,
   `C15_missing_is_empty`, `C15_all` say what that value is: the N-th argument, nothing past the end, and for `@`
   the arguments from the first on joined by blanks.  The braced spelling and whole words of several
-  references are covered by the correspondence stream against `specArgs` (no theorem yet).
+  references: `C15_word_full` / `C15_tokens_full` in `Thm/C15word.lean`.
 * `C15_missing_is_empty` : an index past the end expands to nothing.
 * `C15_sq_untouched` : nothing inside single quotes is expanded.
-Functions, `source`, `exit`, `set -e` and statuses are exercised by the process-level stream against the
-real binary (the function-status defect found there was repaired by `fix:` 6257c3a); they are not modelled
-in Lean yet.
+Functions, `source`, `exit`, `set -e` and statuses: `Model/ScriptSess.lean` and the `C15_sete_*`, `C15_exit_*`,
+`C15_status_is_last`, `C15_functions_hoisted` theorems below, exercised by the `ssess` stream against the real binary
+(the function-status defect found there was repaired by `fix:` 6257c3a).
 -/
 namespace Cicada.C15
 open Cicada
